@@ -46,7 +46,7 @@ def run_config(prog, cfg):
     roots = common.slot_functions(prog, common.DECODER_SLOTS + ["free_struct", "print_struct", "compare_struct"]) | \
         {f.key for f in prog.funcs.values() if not f.static and ("_decode" in f.name or "_fetch_" in f.name or "_skip_" in f.name or "_get_" in f.name)}
     r10 = termination.rule_for(prog, "R04.10", "the decoders (and the free, print and compare functions)", cg.reachable(roots), 60 if cfg == "default" else 20, cfg)
-    return [r1, r04_2(prog, cfg), r3, r04_4(prog, cfg), r04_5(prog, cfg), r04_6(prog, cfg), r04_7(prog, cfg), r04_9(prog, cfg), r10, r04_11(prog, cfg)]
+    return [r1, r04_2(prog, cfg), r3, r04_4(prog, cfg), r04_5(prog, cfg), r04_6(prog, cfg), r04_7(prog, cfg), r04_9(prog, cfg), r10, r04_11(prog, cfg), r04_12(prog, cfg)]
 
 
 def run(ctx):
@@ -699,6 +699,49 @@ def r04_11(prog, cfg):
                 r.ok(f, key, "%s is assigned again before the read" % stxt, e["line"])
                 continue
             r.bad(f, key, "every path to this read of `%s` takes the edge on which `%s` is zero: the buffer is empty (and may be NULL) there" % (tree_text(bt), stxt), e["line"])
+    for i_ in r.insts:
+        i_.config = cfg
+    return r
+
+
+def r04_12(prog, cfg, rid="R04.12", slots=None, floor=None):
+    """A type's function is called with that type's descriptor.  Every call through an op-table slot (`D->op->slot(...)`)
+    or through a constraint slot (`D->encoding_constraints.general_constraints`, `elm->encoding_constraints...`) passes,
+    as its descriptor argument, the very descriptor the slot was taken from (`D`; for a member's own checker the
+    member's type, `elm->type`).  Handing a decoder, printer or checker another type's descriptor makes it interpret
+    the structure with the wrong member table and specifics (140 call sites agree)."""
+    from ..model import strip_casts, tree_text
+    r = Rule(rid, "a function taken from a descriptor's slot is called with that same descriptor", floor=(100 if cfg == "default" else 40) if floor is None else floor)
+    for f in sorted(prog.funcs.values(), key=lambda f: f.key):
+        n = 0
+        for b, i, e in f.calls():
+            ct = e.get("callee_tree")
+            if not e.get("slot") or ct is None or (slots is not None and e["slot"] not in slots):
+                continue
+            t = strip_casts(ct)
+            if not (isinstance(t, list) and t and t[0] == "member"):
+                continue
+            base = strip_casts(t[1])
+            exp = None
+            if isinstance(base, list) and base and base[0] == "member" and base[2] == "op":
+                exp = tree_text(strip_casts(base[1]))
+            elif isinstance(base, list) and base and base[0] == "member" and base[2] == "encoding_constraints":
+                owner = tree_text(strip_casts(base[1]))
+                exp = owner + "->type" if "asn_TYPE_member" in str(base[4]) else owner
+            if exp is None:
+                continue
+            pts = e.get("param_types") or []
+            ai = next((k for k, p_ in enumerate(pts) if "asn_TYPE_descriptor" in p_), None)
+            if ai is None or ai >= len(e.get("args", [])):
+                continue
+            got = tree_text(strip_casts(e["args"][ai]["tree"]))
+            n += 1
+            key = "->%s#%d" % (e["slot"], n)
+            if got.lstrip("&*") == exp.lstrip("&*"):
+                r.ok(f, key, "called with `%s`, the descriptor the slot was read from" % got, e["line"])
+            else:
+                r.bad(f, key, "the function is taken from `%s` but is given the descriptor `%s`: it will read that structure with another type's "
+                              "member table, specifics and constraints" % (tree_text(ct), got), e["line"])
     for i_ in r.insts:
         i_.config = cfg
     return r
